@@ -152,6 +152,15 @@ def gen(rng, tier):
         elif style < 0.45:  # pop-heavy
             w = {"push": 4, "pop": 4, "deck": 1, "remk": 1, "peek": 1, "obs": 0.5, "bad": 0.1, "clear": 0.05}
         cases.append({"max": rng.random() < 0.5, "kind": "long", "c": pmax, "ops": _rand_ops(rng, 200, pmax, w), "conts": []})
+    # the drain loop `while heap: yield heap.pop()` (bounds.sort, smallest / largest): build a heap with churn, then pop
+    # until it is certainly empty (one pop more than there were pushes: the last ones must raise AttributeError).
+    # GtModel.C16.drain_sorted / reachable_drain_sorted is the theorem; the monitor checks every pop against the live keys.
+    for i in range(60 if not thorough else 1500):
+        pmax = rng.choice([1, 3, 9, 30])
+        w = {"push": 6, "pop": 1, "deck": 4, "remk": 1, "peek": 0.3, "obs": 0.2, "bad": 0.1, "clear": 0.0}
+        ops = _rand_ops(rng, rng.choice([10, 40, 120]), pmax, w)
+        ops += [["pop"]] * (sum(1 for o in ops if o[0] == "push") + 1)
+        cases.append({"max": rng.random() < 0.5, "kind": "drain", "c": pmax, "ops": ops, "conts": []})
     return cases
 
 
